@@ -12,7 +12,16 @@ that object is new, every start (with what the body actually bound) / resume / s
 every dirty, and len(DeduplicateDecorator.tasks) after each.  The Lean model (AsynqModel.Lib.Dedup: get_args_tuple as
 written in qcore + the table operations of DeduplicateDecorator) replays the same operations (correspondence) and the
 Lean observer `Dedup.spec` (the statement of C12 over bindings, proved of the model for all histories on every signature
-that does not combine *args with keyword-only parameters) judges the implementation's observations on their own."""
+that does not combine *args with keyword-only parameters) judges the implementation's observations on their own.
+
+Round 3 dimensions: helper threads have a LIFETIME (`retire` joins the thread of a slot and logs `threadEnd`; the next call
+on that slot runs on a NEW Thread object = a new thread token, which usually gets the recycled OS ident and always the
+same name as every other helper); calls whose task nobody awaits (`callx`: the entry stays in the table as leftover); a
+second / third top-level computation in the same case (`more`); bodies that fail with a BaseException-only error;
+argument values that are falsy / None / empty containers / objects with unusual __bool__, __repr__, value-__eq__ made fresh
+for every call / large ints (equal, never identical); long *rest tuples; and the FAN-OUT family: n = 20 .. 2200
+(thorough: .. 8300) distinct keys in flight at the same time (blocked on a batch, or created and never run), then repeated
+calls for the oldest / middle / newest keys - the number of simultaneous entries is a parameter of the case."""
 import hashlib
 import json
 import random
@@ -32,6 +41,10 @@ THEOREMS = [
     "AsynqModel.Dedup.C12_disjoint",
     "AsynqModel.Dedup.C12_instances_disjoint",
     "AsynqModel.Dedup.C12_running_escape_private",
+    "AsynqModel.Dedup.C12_shared_task_has_callers_key",
+    "AsynqModel.Dedup.C12_thread_end_noop",
+    "AsynqModel.Dedup.C12_entry_survives_others",
+    "AsynqModel.Dedup.C12_shared_after_any_fanout",
 ]
 BUILDS = {"quick": ["py"], "thorough": ["py", "cy"]}
 RULE = ("real asynq programs: 1-3 @deduplicate() functions (function / method on 1-3 instances / staticmethod; generated "
@@ -41,7 +54,14 @@ RULE = ("real asynq programs: 1-3 @deduplicate() functions (function / method on
         "tasks of 1-4 phases issuing calls/dirty() with random spellings of few logical calls (so keys collide) on 1-3 "
         "threads; plus a fixed corpus of the named schedules (same yield, later step while blocked, between two flushes, "
         "after completion / failure / dirty, same / different instances, staticmethod, two functions, recursion) over "
-        "several signatures; non-trivial = at least two calls and at least one call that returned an already existing "
+        "several signatures; round 3: thread lifetimes (retire = join the helper thread of a slot, the next call on the slot "
+        "is a new Thread object with the recycled ident and the same name; ~10% of the generated cases are thread-churn "
+        "cases), abandoned calls (task never awaited: leftover entry), up to 3 top-level computations per case, "
+        "BaseException-only failures, exotic argument values (None, '', (), frozenset(), falsy object, raising __repr__, "
+        "value-equal objects / str subclass made fresh per call, ints >= 1000), *rest of 6-12 elements, and the fan-out "
+        "family with the number n of simultaneously in-flight keys as parameter (quick n in 20..2200, thorough up to 8300; "
+        "4 layouts: one function / two functions / method on 3 instances / 3 threads; blocked on a batch or never run); "
+        "non-trivial = at least two calls and at least one call that returned an already existing "
         "task or re-created a task for a call seen before; distinct by hash of the case")
 TRUSTED = [
     "hand-written Lean model AsynqModel.Lib.Dedup tied to the code by this differential run only",
@@ -57,6 +77,12 @@ ASSUMPTIONS = [
     "generated on purpose; equal values of different types (1 == 1.0 == True) are one value; no argument is itself a "
     "(name, value) tuple that could imitate a **kwargs entry of the key",
     "functions stay alive while their tasks are in flight (id(self.fn) is not reused); asyncio mode is C15's",
+    "one thread token per threading.Thread OBJECT (slot + 3 * incarnation); a retired thread is joined before its "
+    "threadEnd is logged and never calls again; a new helper thread that did not get the ident of a finished, logged "
+    "thread is parked before it calls anything and creation is retried (<= 25 short attempts), so that later threads "
+    "run on a recycled ident whenever the OS allows it (feature thread-ident-recycled counts it)",
+    "the synchronous call f(x) of a deduplicated function does not go through the table at all (AsyncDecorator.__call__ "
+    "-> _call_pure) and is not part of the statement (\".asynq() call\"); a custom keygetter= is not part of it either",
     "decorated functions are generator functions (binding errors surface at .asynq() time)",
     "dirty() called with arguments that do not bind is outside the statement (the observer stops judging there)",
 ]
@@ -88,7 +114,12 @@ def gen_sig(rng, kind):
 # value tokens: 0..3 small ints; 50 / 51 = the ints -1 / -2 (DISTINCT values, hash(-1) == hash(-2) in CPython);
 # 60 / 61 = two instances of a harness class with a constant __hash__ and identity __eq__; >= 100 = receiver instances.
 # In the Lean model a key compares by value token, i.e. colliding-hash values are simply two different tokens.
-DOMAINS = [[0, 1], [0, 1], [0, 1], [0, 1], [50, 51], [60, 61], [0, 50, 51], [1, 60, 61], [50, 51, 60, 61]]
+# round 3: 70 None, 71 '', 72 (), 73 frozenset(), 74 object with __bool__ False / __len__ 0, 75 object whose __repr__ /
+# __str__ raise (74, 75: identity __eq__), 76 value-__eq__ object made FRESH for every use, 77 str-subclass instance
+# made fresh for every use (equal to each other, never identical); 1000.. = the int itself (not interned: equal,
+# never identical).  Defaults of parameters are the ints 0..2, so "falsy explicit value vs truthy default" is generated.
+DOMAINS = [[0, 1], [0, 1], [0, 1], [0, 1], [50, 51], [60, 61], [0, 50, 51], [1, 60, 61], [50, 51, 60, 61],
+           [0, 70], [70, 71, 72], [0, 73, 74], [74, 75], [76, 77], [1, 76, 70], [1000, 1001], [0, 71, 1000]]
 
 
 def logical_calls(rng, decl, ninst, n=2, dom=(0, 1)):
@@ -106,6 +137,9 @@ def logical_calls(rng, decl, ninst, n=2, dom=(0, 1)):
         for nm, d in decl["kwonly"]:
             vals[nm] = d if (d is not None and rng.random() < 0.5) else rng.choice(dom)
         rest = [rng.choice(dom) for _ in range(rng.choice([0, 0, 1, 2]))] if decl["varargs"] else []
+        if decl["varargs"] and rng.random() < 0.1:
+            # long *rest: logical calls of one function differ (if at all) only in the LAST element
+            rest = [dom[0]] * rng.randint(5, 11) + [rng.choice(dom)]
         extra = {}
         if decl["varkw"] and rng.random() < 0.5:
             for nm in rng.sample([6, 7], rng.randint(1, 2)):
@@ -188,13 +222,18 @@ def gen_body(rng, calls):
     post = []
     if rng.random() < 0.15:
         post.append(["self"] if rng.random() < 0.6 else ["call"] + calls())
-    return {"steps": steps, "post": post, "end": "raise" if rng.random() < 0.2 else "ret"}
+    return {"steps": steps, "post": post, "end": rng.choice(["raise", "raise", "raise", "raisebase"]) if rng.random() < 0.2 else "ret"}
 
 
 def gen_case(rng):
     nf = rng.choice([1, 1, 2, 2, 3])
     ninst = rng.choice([1, 2, 2, 3])
     nthreads = rng.choice([1, 1, 2, 3])
+    churn = rng.random() < 0.1          # thread-churn case: most calls on helper threads, which come and go
+    if churn:
+        nthreads = rng.choice([2, 3])
+    p_x = rng.choice([0.0, 0.0, 0.1, 0.3]) if not churn else 0.4       # abandoned calls (task never awaited by the caller)
+    p_retire = (0.0 if nthreads == 1 else rng.choice([0.0, 0.05, 0.1])) if not churn else 0.25
     fns = [gen_sig(rng, rng.choice(["func", "func", "method", "method", "static"])) for _ in range(nf)]
     if nf >= 2 and rng.random() < 0.4:
         fns[1] = dict(fns[0])  # two functions with the same signature (same args, different function)
@@ -203,23 +242,41 @@ def gen_case(rng):
 
     def calls(p_mal=0.06):
         fi = rng.randrange(nf)
-        return spell(rng, fi, fns[fi], rng.choice(lcs[fi]), nthreads, malformed=rng.random() < p_mal)
+        sp = spell(rng, fi, fns[fi], rng.choice(lcs[fi]), nthreads, malformed=rng.random() < p_mal)
+        if churn and rng.random() < 0.7:
+            sp[4] = rng.randrange(1, nthreads)
+        return sp
 
     bodies = [gen_body(rng, calls) for _ in range(rng.choice([1, 2, 3]))]
-    actors = []
-    for _ in range(rng.choice([1, 2, 2, 3, 4])):
-        phases = []
-        for _ in range(rng.choice([1, 2, 2, 3, 4])):
-            acts = []
-            for _ in range(rng.choice([0, 1, 1, 2, 2, 3])):
-                if rng.random() < 0.82:
-                    acts.append(["call"] + calls())
-                else:
-                    acts.append(["dirty"] + calls(0.02))
-            wait = rng.choices(["mine", "tick", "all", "first"], weights=[5, 4, 1, 1])[0]
-            phases.append({"acts": acts, "wait": wait})
-        actors.append(phases)
-    return {"fns": fns, "ninst": ninst, "bodies": bodies, "actors": actors}
+    def gen_actors(choices):
+        actors = []
+        for _ in range(rng.choice(choices)):
+            phases = []
+            for _ in range(rng.choice([1, 2, 2, 3, 4])):
+                acts = []
+                for _ in range(rng.choice([0, 1, 1, 2, 2, 3])):
+                    if p_retire and rng.random() < p_retire:
+                        acts.append(["retire", rng.randrange(1, nthreads)])
+                    elif rng.random() < 0.82:
+                        acts.append(["callx" if rng.random() < p_x else "call"] + calls())
+                    else:
+                        acts.append(["dirty"] + calls(0.02))
+                wait = rng.choices(["mine", "tick", "all", "first"], weights=[5, 4, 1, 1])[0]
+                phases.append({"acts": acts, "wait": wait})
+            actors.append(phases)
+        return actors
+
+    case = {"fns": fns, "ninst": ninst, "bodies": bodies, "actors": gen_actors([1, 2, 2, 3, 4])}
+    if rng.random() < 0.15:
+        # calls / dirty() issued at top level (no active task, no scheduler running) before the first computation
+        case["top"] = [[rng.choice(["call", "call", "callx", "dirty"])] + calls(0.02) for _ in range(rng.choice([1, 2, 3]))]
+    if rng.random() < 0.2:
+        # receiver instances: 1 = all instances share one __hash__ (identity __eq__), 2 = instances are falsy / empty
+        case["cls"] = rng.choice([1, 2, 3])
+    if rng.random() < (0.15 if not churn else 0.5):
+        # further top-level computations on the same thread: whatever the earlier ones left in the table is still there
+        case["more"] = [gen_actors([1, 1, 2]) for _ in range(rng.choice([1, 1, 2]))]
+    return case
 
 
 SIGS = [
@@ -341,6 +398,117 @@ def named_schedules():
     return json.loads(json.dumps(cases))
 
 
+def thread_schedules():
+    """thread lifetimes: a helper thread leaves a task in flight (never run / blocked) and ends; a LATER thread on the same
+    slot (new Thread object, recycled ident, same name) must get a task of its own and share only with itself"""
+    cases = []
+    one_item = {"steps": [{"pre": [], "y": "item"}], "post": [], "end": "ret"}
+    two_items = {"steps": [{"pre": [], "y": "item"}, {"pre": [], "y": "item"}], "post": [], "end": "ret"}
+    for decl in (SIGS[0], SIGS[2], SIGS[4], SIGS[6], SIGS[7]):
+        s1, s2, s3 = two_spellings(decl)
+
+        def on(sp, th, op="call"):
+            return [op, 0] + sp[:3] + [th]
+        base = {"fns": [decl], "ninst": 2}
+        # abandoned by the early thread, thread ends, later thread on the slot: new task, then shares with itself
+        cases.append(dict(base, bodies=[one_item], actors=[[{"acts": [
+            on(s1, 1, "callx"), on(s2, 1, "callx"), ["retire", 1], on(s1, 1), on(s2, 1), on(s1, 0)], "wait": "mine"}]]))
+        # four early threads one after the other (like a thread pool that is torn down), then later ones
+        acts = []
+        for _ in range(4):
+            acts += [on(s1, 1, "callx"), ["retire", 1]]
+        acts += [on(s1, 1), on(s2, 1), ["retire", 1], on(s2, 1), on(s1, 1)]
+        cases.append(dict(base, bodies=[one_item], actors=[[{"acts": acts, "wait": "mine"}]]))
+        # the early thread's task is BLOCKED (started on the main scheduler) when its thread ends
+        cases.append(dict(base, bodies=[two_items], actors=[
+            [{"acts": [on(s1, 1)], "wait": "mine"}],
+            [{"acts": [], "wait": "tick"}, {"acts": [["retire", 1], on(s2, 1), on(s1, 1)], "wait": "mine"}]]))
+        # two slots: one retires, the other stays; dirty() from the later thread must not touch the leftover entry
+        cases.append(dict(base, bodies=[one_item], actors=[[{"acts": [
+            on(s1, 1, "callx"), on(s1, 2, "callx"), ["retire", 1], on(s1, 1, "dirty"), on(s1, 2), on(s1, 1), on(s2, 1)],
+            "wait": "mine"}]]))
+        # leftover of an earlier top-level computation, seen by a later computation (same thread / later thread)
+        cases.append(dict(base, bodies=[one_item], actors=[[{"acts": [on(s1, 0, "callx"), on(s1, 1, "callx")], "wait": "tick"}]],
+                          more=[[[{"acts": [["retire", 1], on(s2, 0), on(s2, 1)], "wait": "mine"}]],
+                                [[{"acts": [on(s1, 0), on(s3, 0), on(s1, 1)], "wait": "mine"}]]]))
+    return json.loads(json.dumps(cases))
+
+
+def toplevel_schedules():
+    """calls from outside any asynq task (top level of the thread) and receivers with unusual __hash__ / __bool__"""
+    cases = []
+    one_item = {"steps": [{"pre": [], "y": "item"}], "post": [], "end": "ret"}
+    for decl in (SIGS[0], SIGS[4], SIGS[5], SIGS[6]):
+        s1, s2, s3 = two_spellings(decl)
+        c1, c2, c3 = ["call", 0] + s1, ["call", 0] + s2, ["call", 0] + s3
+        for cls in (0, 1, 2, 3):
+            if cls and decl["kind"] == "func":
+                continue
+            base = {"fns": [decl], "ninst": 2, "cls": cls}
+            # top level: two spellings share, a different key does not, dirty() re-creates; a computation then shares
+            cases.append(dict(base, bodies=[one_item], top=[c1, c2, c3, ["dirty", 0] + s2, c1, ["callx", 0] + s3],
+                              actors=[[{"acts": [c2, c3], "wait": "mine"}, {"acts": [c1], "wait": "mine"}]]))
+            if decl["kind"] == "method":
+                o1, o2, _ = two_spellings(decl, inst=1)
+                cases.append(dict(base, bodies=[one_item], actors=[[{"acts": [
+                    c1, ["call", 0] + o1, c2, ["call", 0] + o2, ["dirty", 0] + o1, ["call", 0] + o2, c1], "wait": "mine"}]]))
+    return json.loads(json.dumps(cases))
+
+
+def sharers_case(n):
+    """n callers (alternating spellings) of only three keys - one of them hot - in the same yield, and again while blocked"""
+    sig = {"kind": "func", "pos": [[1, None], [2, 1]], "kwonly": [], "varargs": False, "varkw": False}
+    def k(i):
+        return i % 3 if i % 50 == 0 else 0           # one hot key (98% of the calls) and two others
+    acts = [["call", 0, "none", [], [[2, 1], [1, k(i)]], 0] if i % 2 else ["call", 0, "none", [k(i)], [], 0] for i in range(n)]
+    two_items = {"steps": [{"pre": [], "y": "item"}, {"pre": [], "y": "item"}], "post": [], "end": "ret"}
+    return {"fns": [sig], "ninst": 1, "bodies": [two_items], "actors": [
+        [{"acts": acts[: n // 2], "wait": "mine"}], [{"acts": [], "wait": "tick"}, {"acts": acts[n // 2:], "wait": "mine"}]]}
+
+
+FANOUT_QUICK = [20, 70, 140, 270, 530, 1100, 2200]
+FANOUT_THOROUGH = [4300, 8300]
+
+
+def fanout_case(n, variant):
+    """n distinct keys in flight at the same time, then repeated calls (other spelling) for the oldest, a middle and the
+    newest key while all are still in flight, then again after completion.
+    variant % 4: 0 one function f(p0, p1=1) / 1 two functions with the same signature / 2 method on 3 instances /
+    3 one function called from 3 threads;  variant // 4: 0 bodies blocked on a batch / 1 created and never run"""
+    layout, never_run = variant % 4, (variant // 4) % 2
+    sig = {"kind": "method" if layout == 2 else "func", "pos": ([[0, None]] if layout == 2 else []) + [[1, None], [2, 1]],
+           "kwonly": [], "varargs": False, "varkw": False}
+    fns = [sig, dict(sig)] if layout == 1 else [sig]
+
+    def key(i, kwform):
+        fi = i % 2 if layout == 1 else 0
+        th = i % 3 if layout == 3 else 0
+        recv = ["inst", i % 3] if layout == 2 else "none"
+        v = 1000 + i
+        return [fi, recv, [], [[2, 1], [1, v]], th] if kwform else [fi, recv, [v], [], th]
+
+    first = [["callx" if never_run else "call"] + key(i, False) for i in range(n)]
+    probe = sorted({0, 1, 2, n // 2, n - 2, n - 1} & set(range(n)))
+    again = [["call"] + key(i, True) for i in probe]
+    two_items = {"steps": [{"pre": [], "y": "item"}, {"pre": [], "y": "item"}], "post": [], "end": "ret"}
+    actors = [[{"acts": first, "wait": "mine"}],
+              [{"acts": [], "wait": "tick"}, {"acts": again, "wait": "mine"},
+               {"acts": [["call"] + key(0, False), ["call"] + key(0, True)], "wait": "mine"}]]
+    return {"fns": fns, "ninst": 3, "bodies": [two_items], "actors": actors, "fanout": [n, variant]}
+
+
+def fanout_cases(tier, rng):
+    sizes = list(FANOUT_QUICK) + (FANOUT_THOROUGH if tier != "quick" else [])
+    cases = []
+    v0 = rng.randrange(8)
+    for j, n in enumerate(sizes):
+        # every size a little above the round number, with two of the eight layouts (rotating with the seed)
+        cases.append(fanout_case(n + rng.randrange(0, 9), (v0 + j) % 8))
+        if n <= 2200:
+            cases.append(fanout_case(n + rng.randrange(0, 9), (v0 + j + 3) % 8))     # together: all 8 layouts in every run
+    return cases
+
+
 def corpus():
     import glob
     import os
@@ -355,7 +523,10 @@ def corpus():
 def plan(tier, seed):
     rng = random.Random(seed * 1000003 + 12)
     n = 6000 if tier == "quick" else 60000
-    cases = corpus() + named_schedules()
+    cases = corpus() + named_schedules() + thread_schedules() + toplevel_schedules()
+    cases += [sharers_case(n) for n in ([300, 2500] if tier == "quick" else [300, 2500, 20000])]
+    frng = random.Random(seed * 7919 + 1212)
+    cases += fanout_cases(tier, frng)
     cases += [gen_case(rng) for _ in range(n)]
     return cases
 
@@ -363,6 +534,35 @@ def plan(tier, seed):
 def shrink(case):
     def clone():
         return json.loads(json.dumps({k: v for k, v in case.items() if k != "id"}))
+    if case.get("fanout"):
+        # the size is the parameter: look for the smallest n that still fails, nothing else
+        n, variant = case["fanout"]
+        for m in (n // 2, (3 * n) // 4, (7 * n) // 8, n - 16, n - 4, n - 1):
+            if 3 <= m < n:
+                yield fanout_case(m, variant)
+        return
+    if case.get("top"):
+        for i in range(len(case["top"])):
+            c = clone()
+            del c["top"][i]
+            if not c["top"]:
+                del c["top"]
+            yield c
+    if case.get("cls"):
+        c = clone()
+        del c["cls"]
+        yield c
+    if case.get("more"):
+        c = clone()
+        c["more"].pop()
+        if not c["more"]:
+            del c["more"]
+        yield c
+        c = clone()                        # drop the FIRST computation instead
+        c["actors"], c["more"] = c["more"][0], c["more"][1:]
+        if not c["more"]:
+            del c["more"]
+        yield c
     for i in range(len(case["actors"])):
         if len(case["actors"]) > 1:
             c = clone()
@@ -405,7 +605,9 @@ def shrink(case):
             c["bodies"][i]["end"] = "ret"
             yield c
     # drop an unused trailing function
-    used = {a[1] for ac in case["actors"] for ph in ac for a in ph["acts"]}
+    used = {a[1] for acs in [case["actors"]] + case.get("more", []) for ac in acs for ph in ac for a in ph["acts"]
+            if a[0] != "retire"}
+    used |= {a[1] for a in case.get("top", [])}
     used |= {a[1] for b in case["bodies"] for st in b["steps"] for a in st["pre"] if len(a) > 1}
     used |= {a[1] for b in case["bodies"] for a in b.get("post", []) if len(a) > 1}
     if len(case["fns"]) > 1 and (len(case["fns"]) - 1) not in used:
@@ -424,10 +626,14 @@ def neighbours(case, rng):
         def fix(a):
             if len(a) > 1 and a[1] >= nf:
                 a[1] = a[1] % nf
-        for ac in c["actors"]:
-            for ph in ac:
-                for a in ph["acts"]:
-                    fix(a)
+        for acs in [c["actors"]] + c.get("more", []):
+            for ac in acs:
+                for ph in ac:
+                    for a in ph["acts"]:
+                        if a[0] != "retire":
+                            fix(a)
+        for a in c.get("top", []):
+            fix(a)
         for b in c["bodies"]:
             for st in b["steps"]:
                 for a in st["pre"]:
@@ -450,8 +656,14 @@ class UserErr(Exception):
     pass
 
 
+class BaseErr(BaseException):
+    """a failure that is not an Exception (like KeyboardInterrupt / GeneratorExit-free BaseException subclasses)"""
+    pass
+
+
 def run_case(case):
     import threading
+    import time
 
     import asynq
     import asynq.scheduler
@@ -526,13 +738,22 @@ def run_case(case):
             fi, ", ".join(params), fi, tup, "rest" if d["varargs"] else "()", "extra" if d["varkw"] else "{}")
         ns = {"__H": H}
         exec(src, ns)
-        fn = deduplicate()(asynq.asynq()(ns["body%d" % fi]))
+        # the seldom spelled-out keyword: keygetter=None is the default key
+        fn = (deduplicate(keygetter=None) if fi % 2 else deduplicate())(asynq.asynq()(ns["body%d" % fi]))
         if d["kind"] == "func":
             plain[fi] = fn
         elif d["kind"] == "method":
             cls_dict["f%d" % fi] = fn
         else:
             cls_dict["f%d" % fi] = staticmethod(fn)
+    clsflags = case.get("cls", 0)
+    if clsflags & 1:
+        cls_dict["__hash__"] = lambda self: 7          # identity __eq__ stays: distinct instances, one hash
+        feat("receiver-colliding-hash")
+    if clsflags & 2:
+        cls_dict["__bool__"] = lambda self: False
+        cls_dict["__len__"] = lambda self: 0
+        feat("receiver-falsy")
     C = type("C", (object,), cls_dict)
     insts = [C() for _ in range(max(1, ninst))]
     inst_tok = {id(o): 100 + i for i, o in enumerate(insts)}
@@ -544,19 +765,74 @@ def run_case(case):
         def __hash__(self):
             return 12345
 
-    special = {50: -1, 51: -2, 60: Coll(), 61: Coll()}
-    special_tok = {id(o): t for t, o in special.items() if t >= 60}
+    class Falsy(object):
+        """identity __eq__ / __hash__, but falsy and 'empty'"""
+        def __bool__(self):
+            return False
+
+        def __len__(self):
+            return 0
+
+    class NoRepr(object):
+        """identity __eq__ / __hash__; cannot be printed"""
+        def __repr__(self):
+            raise RuntimeError("no repr")
+
+        __str__ = __repr__
+
+    class EqVal(object):
+        """compares and hashes by value: every use of token 76 is a NEW object equal to all the others"""
+        def __init__(self, v):
+            self.v = v
+
+        def __eq__(self, other):
+            return isinstance(other, EqVal) and other.v == self.v
+
+        def __ne__(self, other):
+            return not self.__eq__(other)
+
+        def __hash__(self):
+            return hash(("EqVal", self.v))
+
+    class StrSub(str):
+        pass
+
+    special = {50: -1, 51: -2, 60: Coll(), 61: Coll(), 70: None, 71: "", 72: (), 73: frozenset(), 74: Falsy(), 75: NoRepr()}
+    special_tok = {id(o): t for t, o in special.items() if t in (60, 61, 74, 75)}
 
     def val(x):
+        if isinstance(x, int) and x >= 1000:
+            feat("arg-large-int")
+            return int(str(x))                      # a new int object every time: equal, never identical
         if isinstance(x, int) and x >= 100:
             return insts[(x - 100) % len(insts)]
+        if x == 76:
+            feat("arg-fresh-equal-object")
+            return EqVal(76)
+        if x == 77:
+            feat("arg-fresh-equal-object")
+            return StrSub("seventy-seven")
         if x in special:
-            if x >= 50:
+            if x >= 70:
+                feat("arg-exotic-value")
+            elif x >= 50:
                 feat("arg-colliding-hash")
             return special[x]
         return x
 
     def vtok(x):
+        if x is None:
+            return 70
+        if isinstance(x, EqVal):
+            return x.v
+        if isinstance(x, StrSub):
+            return 77
+        if isinstance(x, str):
+            return 71 if x == "" else UNKNOWN
+        if isinstance(x, tuple):
+            return 72 if x == () else UNKNOWN
+        if isinstance(x, frozenset):
+            return 73 if not len(x) else UNKNOWN
         if isinstance(x, bool) or not isinstance(x, int):
             return inst_tok.get(id(x), special_tok.get(id(x), UNKNOWN))
         if x == -1:
@@ -573,8 +849,17 @@ def run_case(case):
             return getattr(C, "f%d" % fi)
         return getattr(insts[recv[1] % len(insts)], "f%d" % fi)
 
-    # ---- helper threads (persistent per case: the thread object is part of the key) ---------------
+    # ---- helper threads: one Thread OBJECT per (slot, incarnation); the thread object is part of the key ----------
+    # `retire slot` joins the thread of the slot; the next call on the slot starts a new thread (a new token).  All helper
+    # threads carry the SAME name as the main thread and the OS usually hands the ident of the joined thread to the next.
     workers = {}
+    parked = []
+    incarnation = {}
+    dead_idents = set()
+    my_name = threading.current_thread().name
+
+    def thtok(th):
+        return th if th == 0 else th + 3 * incarnation.get(th, 0)
 
     class Worker(object):
         def __init__(self):
@@ -582,9 +867,10 @@ def run_case(case):
             self.res = None
             self.go = threading.Event()
             self.fin = threading.Event()
-            self.th = threading.Thread(target=self.loop)
+            self.th = threading.Thread(target=self.loop, name=my_name)
             self.th.daemon = True
             self.th.start()
+            self.ident = self.th.ident
 
         def loop(self):
             while True:
@@ -617,17 +903,46 @@ def run_case(case):
         if th == 0:
             return f()
         if th not in workers:
-            workers[th] = Worker()
+            w = Worker()
+            # CPython threads are detached: a joined thread gives its stack (= its ident) back a moment AFTER join()
+            # returns.  A later thread that does not get the ident of a finished, logged thread exercises nothing new,
+            # so such a candidate (it has not called anything and is never logged) is parked and creation is retried.
+            tries = 0
+            while dead_idents and w.ident not in dead_idents and tries < 25:
+                parked.append(w)          # stays alive (keeps its ident occupied) until the end of the case
+                time.sleep(0.0004 * (1 + tries))
+                tries += 1
+                w = Worker()
+            workers[th] = w
+            if w.ident in dead_idents:
+                feat("thread-ident-recycled")
+            if incarnation.get(th, 0) > 0:
+                feat("later-thread-on-slot")
         return workers[th].call(f)
+
+    def do_retire(th):
+        th = th % 3
+        if th == 0 or th not in workers:
+            return
+        w = workers.pop(th)
+        w.stop()
+        if w.th.is_alive():              # never observed; keep the token (nothing is logged)
+            workers[th] = w
+            return
+        dead_idents.add(w.ident)
+        log.append("(obs (threadEnd %d) (unit) %d)" % (thtok(th), size()))
+        incarnation[th] = incarnation.get(th, 0) + 1
+        feat("thread-retired")
 
     # ---- logged operations -----------------------------------------------------------------------
     def fmt_spell(fi, recv, args, kw, th):
         r = recv if isinstance(recv, str) else "(inst %d)" % (100 + recv[1])  # the instance TOKEN
         return "%d %s (%s) (%s) %d" % (fi, r, " ".join(str(a) for a in args),
-                                       " ".join("(%d %d)" % (n, v) for n, v in kw), th)
+                                       " ".join("(%d %d)" % (n, v) for n, v in kw), thtok(th))
 
-    def do_call(fi, recv, args, kw, th, inside=None):
+    def do_call(fi, recv, args, kw, th, inside=None, keep=True):
         fi = fi % len(fns_decl)
+        th = th % 3
         if fns_decl[fi]["kind"] == "func":
             recv = "none"
         elif recv == "none":
@@ -669,13 +984,16 @@ def run_case(case):
                         except UserErr as e:
                             o = "(err %d)" % e.args[0]
                             feat("complete-err")
+                        except BaseErr as e:
+                            o = "(err %d)" % e.args[0]
+                            feat("complete-base-exception")
                         except BaseException:  # noqa
                             o = "(err %d)" % UNKNOWN
                         log.append("(obs (complete %d %s) (unit) %d)" % (t, o, size()))
                     task.on_computed.subscribe(cb)
                 t = tok_of[id(task)]
                 res = "(ret %d %d)" % (t, 1 if new else 0)
-                ck = json.dumps([fi, recv, args, sorted(kw), th])
+                ck = json.dumps([fi, recv, args, sorted(kw), thtok(th)])
                 if new:
                     feat("new-inside" if inside is not None else "new")
                     if ck in seen_calls:
@@ -689,6 +1007,8 @@ def run_case(case):
                         feat("shared-completed")
                     elif t not in started:
                         feat("shared-unstarted")
+                        if t in abandoned:
+                            feat("shared-leftover-of-abandoned-call")
                     elif resumed.get(t, 0) >= 1:
                         feat("shared-between-flushes")
                     else:
@@ -698,13 +1018,18 @@ def run_case(case):
                 seen_calls[ck] = True
                 if th != 0:
                     feat("call-on-helper-thread")
+                big[0] = max(big[0], size())
         log.append("(obs %s %s %d)" % (head, res, size()))
-        if task is not None:
+        if task is not None and keep:
             slots.append(task)
+        elif task is not None and new:
+            abandoned.add(tok_of[id(task)])
+            feat("abandoned-call")
         return task, new
 
     def do_dirty(fi, recv, args, kw, th):
         fi = fi % len(fns_decl)
+        th = th % 3
         if fns_decl[fi]["kind"] == "func":
             recv = "none"
         elif recv == "none":
@@ -729,6 +1054,9 @@ def run_case(case):
         log.append("(obs %s %s %d)" % (head, res, size()))
 
     nontriv = [False]
+    abandoned = set()
+    big = [0]
+    computation = [0]
 
     # ---- the body of every deduplicated function ------------------------------------------------
     def run(fi, params, rest, extra):
@@ -772,7 +1100,7 @@ def run_case(case):
                 feat("sync-eval-of-private-task")
                 try:
                     last.value()
-                except UserErr:
+                except (UserErr, BaseErr):
                     pass
             if y == "fail":
                 dep = futures.ErrorFuture(UserErr(UNKNOWN))
@@ -784,7 +1112,7 @@ def run_case(case):
             log.append("(obs (suspend %d) (unit) %d)" % (t, size()))
             try:
                 yield dep
-            except UserErr:
+            except (UserErr, BaseErr):
                 resumed[t] = resumed.get(t, 0) + 1
                 log.append("(obs (resume %d 1) (unit) %d)" % (t, size()))
                 feat("resumed-by-throw")
@@ -794,6 +1122,8 @@ def run_case(case):
         inside(script.get("post", []))
         if script["end"] == "raise":
             raise UserErr(r)
+        if script["end"] == "raisebase":
+            raise BaseErr(r)
         return ("v", r)
 
     H.run = run
@@ -808,7 +1138,11 @@ def run_case(case):
                     x, _ = do_call(a[1], a[2], a[3], a[4], a[5])
                     if x is not None:
                         mine.append(x)
-                else:
+                elif a[0] == "callx":
+                    do_call(a[1], a[2], a[3], a[4], a[5], keep=False)     # nobody awaits it: stays in the table
+                elif a[0] == "retire":
+                    do_retire(a[1])
+                elif a[0] == "dirty":
                     do_dirty(a[1], a[2], a[3], a[4], a[5])
             w = ph["wait"]
             if w == "mine" and mine:
@@ -821,17 +1155,32 @@ def run_case(case):
                 deps = [HItem()]
             try:
                 yield deps
-            except UserErr:
+            except (UserErr, BaseErr):
                 pass
 
     @asynq.asynq()
-    def root():
-        yield [actor.asynq(ph) for ph in case["actors"]]
+    def root(actors):
+        yield [actor.asynq(ph) for ph in actors]
 
     try:
-        root()
+        for a in case.get("top", []):
+            feat("top-level-" + ("dirty" if a[0] == "dirty" else "call"))
+            if a[0] == "dirty":
+                do_dirty(a[1], a[2], a[3], a[4], a[5])
+            else:
+                do_call(a[1], a[2], a[3], a[4], a[5], keep=(a[0] == "call"))
+        for actors in [case["actors"]] + list(case.get("more", [])):
+            if computation[0]:
+                feat("later-top-level-computation")
+                if size():
+                    feat("later-computation-sees-leftover-entries")
+            computation[0] += 1
+            try:
+                root(actors)
+            except (UserErr, BaseErr):
+                pass
     finally:
-        for w in workers.values():
+        for w in list(workers.values()) + parked:
             w.stop()
         DeduplicateDecorator.tasks.clear()
 
@@ -851,6 +1200,10 @@ def run_case(case):
     if any(d["kwonly"] for d in fns_decl):
         fl.append("sig-kwonly")
     fl.append("ops<=%d" % next(b for b in (5, 10, 20, 40, 80, 10 ** 9) if len(log) <= b))
+    fl.append("in-flight-entries<=%d" % next(b for b in (4, 16, 64, 128, 256, 512, 1024, 2048, 4096, 8192, 10 ** 9)
+                                             if big[0] <= b))
+    if case.get("fanout"):
+        fl.append("fanout-layout-%d" % (case["fanout"][1] % 8))
     ncalls = feats.get("call", 0)
     nontrivial = None
     if nontriv[0] and ncalls >= 2:
